@@ -14,6 +14,7 @@ import random
 def tok(s): return {'op': 'tok', 's': list(s)}
 def pat(cls, mn=1, many=False): return {'op': 'pat', 'cls': list(cls), 'min': mn, 'many': many}
 def dot(): return {'op': 'dot'}
+def meta(kind): return {'op': 'meta', 'kind': kind}
 def const(v): return {'op': 'const', 'v': val(v)}
 def constbad(): return {'op': 'constbad'}
 def void(): return {'op': 'void'}
@@ -77,8 +78,12 @@ def unval(v):
     if t == 's':
         x = v['v']
         return ''.join(x) if isinstance(x, list) else x
-    if t in ('i', 'b'):
+    if t == 'i':
+        return -v['v'] if v.get('neg') else v['v']
+    if t == 'b':
         return v['v']
+    if t == 'f':
+        return float(''.join(v['v']).replace('_', ''))
     if t == 'l':
         return [unval(x) for x in v['v']]
     if t == 'd':
@@ -107,7 +112,7 @@ def norm(x):
 
 # ---------------------------------------------------------------- rendering to TatSu EBNF
 
-_ATOM = {'tok', 'pat', 'dot', 'const', 'constbad', 'void', 'fail', 'eof', 'cut', 'emptyclosure', 'group', 'skipgroup', 'opt', 'star',
+_ATOM = {'tok', 'pat', 'dot', 'meta', 'const', 'constbad', 'void', 'fail', 'eof', 'cut', 'emptyclosure', 'group', 'skipgroup', 'opt', 'star',
          'plus', 'call', 'join'}
 
 
@@ -139,6 +144,8 @@ def render(e, top=False):
         body = _cls(cls) if len(cls) == 1 and cls[0].isalnum() else '[' + _cls(cls) + ']'
         q = {(1, False): '', (1, True): '+', (0, True): '*', (0, False): '?'}[(e['min'], e['many'])]
         return '/' + body + q + '/'
+    if op == 'meta':
+        return '@' + e['kind']
     if op == 'dot':
         return '/./'
     if op == 'const':
